@@ -55,7 +55,7 @@ class C12(Prop):
     id = 'C12'
     title = 'Addresses map one-to-one to standard scripts, on the selected chain only'
     lean_targets = ['BtcVerif.Props.C12']
-    table_groups = ['Chain']
+    table_groups = ['ChainAddr']
     theorems = ['BtcVerif.C12.' + t for t in (
         'select_step', 'select_inv', 'selected_mem', 'roundtrip', 'roundtrip_after_history', 'refuse_total',
         'unsupported_witver_refused', 'cross_chain_refused_base58', 'cross_chain_refused_bech32')]
@@ -81,7 +81,7 @@ class C12(Prop):
     assumptions = ['bitcoin.core.Hash returns at least 4 bytes',
                    'cross-chain refusal of bech32 text by the base58 reader: its 32-bit checksum does not match '
                    '(explicit hypothesis of cross_chain_refused_bech32)',
-                   'the per-chain prefixes are those of the library parameter table (tied by T1 Tables.Chain)']
+                   'the per-chain prefixes are those of the library parameter table (tied by T1 Tables.ChainAddr)']
     rule = ('SelectParams histories of length 1..6 (valid and unknown names) followed by the four conversions for '
             'payloads incl. all-zero/all-ff; every push encoding, truncation, extension and byte mutation of the '
             'standard scripts through CBitcoinAddress.from_scriptPubKey and through the P2PKH converter under its four '
